@@ -20,6 +20,7 @@ package version
 import (
 	"go.uber.org/atomic"
 
+	"github.com/lindb/lindb/internal/verifhook"
 	"github.com/lindb/lindb/kv/table"
 	"github.com/lindb/lindb/pkg/timeutil"
 )
@@ -143,6 +144,7 @@ func (v *version) Retain() {
 // if ref==0, then remove current version from list of family level.
 func (v *version) Release() {
 	newVal := v.ref.Dec()
+	verifhook.Yield("version.release.afterDec")
 	if newVal == 0 {
 		v.fv.removeVersion(v)
 	}
